@@ -162,7 +162,7 @@ Lemma scan_vhost_spec : forall (A : Type) pfx vhost (dec : bytes -> A) (l : sdb)
 Proof.
   induction l as [|[k v] t IH]; intros Hsrc.
   - exists []. split; [reflexivity|]. intro x. split; [intros [] | intros (k & v & [] & _)].
-  - destruct IH as (r & Hr & Hin); [intros k0 v0 H0; apply Hsrc; right; exact H0|].
+  - destruct IH as (r & Hr & Hin); [intros k0 v0 H0; apply (Hsrc k0 v0); right; exact H0|].
     destruct (Hsrc k v (or_introl eq_refl)) as (id & Hid & Ek).
     assert (Hf : exists b, vhost_filter pfx vhost k = Some b).
     { unfold vhost_filter. destruct (is_prefix (bytes_of_string pfx) k); [|eauto]. subst k. rewrite vhost_of_key_of by exact Hid. eauto. }
@@ -195,13 +195,15 @@ Lemma scan_result : forall (A : Type) ops pfx vhost (dec : bytes -> A), ops_ok o
 Proof.
   intros A ops pfx vhost dec Hok. pose proof (inv_run ops Hok) as [Hg Hs Hso Hk].
   destruct (scan_vhost_spec A pfx vhost dec (srv_run ops)) as (r & Hr & Hin).
-  { intros k v H. apply (Hs k v). apply in_get; assumption. }
+  { intros k v H. apply (Hs k v). apply in_get; [exact Hso | exact H]. }
   exists r. split; [exact Hr|]. intro x. rewrite Hin. split.
   - intros (k & v & H0 & H1 & H2). apply in_get in H0; [|exact Hso].
     destruct (Hs k v H0) as (id & Hid & Ek). subst k. rewrite vhost_filter_key_of in H1 by exact Hid.
-    inversion H1 as [H3]. apply andb_true_iff in H3 as [Hp Hv]. apply bytes_eqb_eq in Hv.
-    rewrite Hg in H0 by exact Hid. destruct (topo_spec ops id) as [e|] eqn:Et; [|discriminate]. cbn in H0. inversion H0; subst v.
-    exists id, e. repeat split; assumption.
+    assert (H3 : is_prefix (bytes_of_string pfx) (key_of id) && bytes_eqb (ident_vhost id) vhost = true) by congruence.
+    apply andb_true_iff in H3 as [Hp Hv]. apply bytes_eqb_eq in Hv.
+    rewrite Hg in H0 by exact Hid. destruct (topo_spec ops id) as [e|] eqn:Et; [|discriminate]. cbn in H0.
+    assert (Ev : v = value_of e) by congruence. subst v.
+    exists id, e. split; [exact Et|]. split; [exact Hp|]. split; [exact Hv | exact H2].
   - intros (id & e & Et & Hp & Hv & Hx). destruct (Hk id e Et) as [_ Hid].
     exists (key_of id), (value_of e). split; [|split].
     + apply get_in. rewrite Hg by exact Hid. rewrite Et. reflexivity.
@@ -253,17 +255,17 @@ Proof.
     exists l. split; [exact Hl|]. intro r. rewrite Hin. split.
     + intros (id & e & Et & Hp & Hv & Hx). apply under_queue_prefix in Hp as (v0 & n & ->). cbn in Hv. subst v0.
       destruct (Hk _ _ Et) as [Hm _]. destruct e; cbn in Hm; try contradiction. exists n, q. split; [exact Et | exact Hx].
-    + intros (n & q & Et & Hx). exists (IQueue v n), (EQueue q). repeat split; try assumption. apply O1.
+    + intros (n & q & Et & Hx). exists (IQueue v n), (EQueue q). repeat split; try assumption; try apply O1.
   - destruct (scan_result exchange ops scan_prefix_exchanges v unmarshal_exchange Hok) as (l & Hl & Hin).
     exists l. split; [exact Hl|]. intro r. rewrite Hin. split.
     + intros (id & e & Et & Hp & Hv & Hx). apply under_exchange_prefix in Hp as (v0 & n & ->). cbn in Hv. subst v0.
       destruct (Hk _ _ Et) as [Hm _]. destruct e; cbn in Hm; try contradiction. exists n, e. split; [exact Et | exact Hx].
-    + intros (n & x & Et & Hx). exists (IExchange v n), (EExchange x). repeat split; try assumption. apply O2.
+    + intros (n & x & Et & Hx). exists (IExchange v n), (EExchange x). repeat split; try assumption; try apply O2.
   - destruct (scan_result binding ops scan_prefix_bindings v unmarshal_binding Hok) as (l & Hl & Hin).
     exists l. split; [exact Hl|]. intro r. rewrite Hin. split.
     + intros (id & e & Et & Hp & Hv & Hx). apply under_binding_prefix in Hp as (v0 & q & e0 & k & ->). cbn in Hv. subst v0.
       destruct (Hk _ _ Et) as [Hm _]. destruct e; cbn in Hm; try contradiction. exists q, e0, k, b. split; [exact Et | exact Hx].
-    + intros (q & e & k & b & Et & Hx). exists (IBinding v q e k), (EBinding b). repeat split; try assumption. apply O3.
+    + intros (q & e & k & b & Et & Hx). exists (IBinding v q e k), (EBinding b). repeat split; try assumption; try apply O3.
 Qed.
 
 (* ------------------------------------------------------------ what the stored records keep (F22) *)
@@ -311,10 +313,11 @@ Proof.
 Qed.
 
 (* the binding key ignores the arguments: the second headers binding overwrites the first *)
-Lemma binding_args_overwrite :
-  let b1 := {| bd_queue := bs "q"; bd_exchange := bs "h"; bd_key := []; bd_args := [1]; bd_topic := false; bd_match_any := false |} in
-  let b2 := {| bd_queue := bs "q"; bd_exchange := bs "h"; bd_key := []; bd_args := [2]; bd_topic := false; bd_match_any := false |} in
-  srv_get_bindings (srv_run [SAddBinding (bs "/") b1; SAddBinding (bs "/") b2]) (bs "/") = Some [b2].
+Definition bw1 : binding := {| bd_queue := bs "q"; bd_exchange := bs "h"; bd_key := []; bd_args := [1]; bd_topic := false; bd_match_any := false |}.
+Definition bw2 : binding := {| bd_queue := bs "q"; bd_exchange := bs "h"; bd_key := []; bd_args := [2]; bd_topic := false; bd_match_any := false |}.
+Lemma binding_args_differ : bd_args bw1 <> bd_args bw2.
+Proof. discriminate. Qed.
+Lemma binding_args_overwrite : srv_get_bindings (srv_run [SAddBinding (bs "/") bw1; SAddBinding (bs "/") bw2]) (bs "/") = Some [bw2].
 Proof. vm_compute. reflexivity. Qed.
 
 (* non-vacuity of the round trip: declarations, a delete, kills, a second vhost *)
